@@ -340,21 +340,27 @@ class CompoundStart(Unit):
         self.members = Members(ex, '_servlets', self.nn, lambda i: Sym(self, i, 'member'))
         self.q_in, self.q_out = V.intv(z3.IntVal(-1)), V.intv(z3.IntVal(-2))          # queues as values: intv(queue id)
         self.me = Rec(ex, 'self', methods={'_reset': Fn(self.reset), '_dequeue': Fn(lambda e, s, a, k, n: [('ok', s, NONE)], name='_dequeue'), '_enqueue': Fn(lambda e, s, a, k, n: [('ok', s, NONE)], name='_enqueue')})
-        self.me.init(st, _started=z3.BoolVal(False), _servlets=self.members, _qs=V.EMPTY, _qins=V.EMPTY, _qouts=V.EMPTY, _threads=V.EMPTY)
+        # whatever an earlier entry left in the per-member lists (the same servlet object is started again after stop): arbitrary
+        self.me.init(st, _started=z3.BoolVal(False), _servlets=self.members, _qs=z3.Const('old_qs', V.SeqV), _qins=z3.Const('old_qins', V.SeqV), _qouts=z3.Const('old_qouts', V.SeqV), _threads=z3.Const('old_threads', V.SeqV))
         st.env['self'] = self.me
         st.env.update(q_in=self.q_in, q_out=self.q_out)
         self.nq = [0]
 
         st.ghost['next_qid'] = z3.IntVal(0)
 
-        def newq(e, s, a, k, n):
-            self.nq[0] += 1
-            s = s.fork()
-            q = s.ghost['next_qid']                  # a new queue object is distinct from every earlier one
-            s.ghost['next_qid'] = q + 1
-            return [('ok', s, V.intv(q))]
-        ex.globals['_SimpleThreadQueue'] = Fn(newq)
-        ex.globals['_SimpleProcessQueue'] = Fn(newq)
+        self.qkind = z3.Function('queue_kind', z3.IntSort(), z3.StringSort())
+
+        def newq(kind):
+            def f(e, s, a, k, n):
+                self.nq[0] += 1
+                s = s.fork()
+                q = s.ghost['next_qid']                  # a new queue object is distinct from every earlier one
+                s.ghost['next_qid'] = q + 1
+                s.assume(self.qkind(q) == z3.StringVal(kind))
+                return [('ok', s, V.intv(q))]
+            return Fn(f)
+        ex.globals['_SimpleThreadQueue'] = newq('thread')
+        ex.globals['_SimpleProcessQueue'] = newq('process')
         ex.globals['Thread'] = ThreadCtor()
         return st
 
@@ -384,6 +390,12 @@ class CompoundStart(Unit):
                 ex.oblige(st, f'line {node.lineno}: every member writes to the servlet\'s output queue and reads its own fresh queue', z3.And(q1 >= 0, q2 == -2))
             else:
                 ex.oblige(st, f'line {node.lineno}: every member gets its own fresh input and output queue', z3.And(q1 >= 0, q2 >= 0))
+            # a member that declares it needs a PROCESS queue (a worker process at that edge) must get one: a thread queue cannot cross the process boundary
+            decl_in = z3.Function('input_queue_type', z3.IntSort(), z3.StringSort())(obj.i)
+            decl_out = z3.Function('output_queue_type', z3.IntSort(), z3.StringSort())(obj.i)
+            proc = z3.StringVal('process')
+            ex.oblige(st, f'line {node.lineno}: a queue made HERE for a member is of the type that member declares (process-declaring members get process queues)',
+                      z3.And(z3.Implies(z3.And(q1 >= 0, decl_in == proc), self.qkind(q1) == proc), z3.Implies(z3.And(q2 >= 0, decl_out == proc), self.qkind(q2) == proc)))
             s_ok = st.fork()
             s_ok.ghost['nstarted'] = st.ghost['nstarted'] + 1
             s_bad = st.fork()
@@ -409,9 +421,14 @@ class CompoundStart(Unit):
             keys = idx(s, '')
             cur = s.ghost[keys[0]] if keys else z3.IntVal(0)
             base = z3.And(s.ghost['failed_at'] == -1, s.ghost['nstopped'] == 0, z3.Not(self.me.get(s, '_started')), s.ghost['nthreads'] == 0, s.ghost['nstarted'] == cur, s.ghost['next_qid'] >= 0)
+            if self.wiring in ('ensemble', 'switch'):
+                base = z3.And(base, z3.Length(self.me.get(s, '_qins')) == cur, *( [z3.Length(self.me.get(s, '_qouts')) == cur] if self.wiring == 'ensemble' else []))
             if self.wiring == 'sequential':
                 base = z3.And(base, z3.If(cur == 0, s.ghost['prev_out'] == -1, z3.If(cur == self.nn, s.ghost['prev_out'] == -2, s.ghost['prev_out'] >= 0)),
-                              s.ghost['prev_out'] < s.ghost['next_qid'], s.ghost['next_qid'] >= 0, s.env['q1'] == V.intv(s.ghost['prev_out']), s.env['nn'] == self.nn)
+                              s.ghost['prev_out'] < s.ghost['next_qid'], s.ghost['next_qid'] >= 0, s.env['q1'] == V.intv(s.ghost['prev_out']), s.env['nn'] == self.nn,
+                              # the queue between member cur-1 and member cur was made as a process queue unless BOTH sides declared 'thread'
+                              z3.Implies(z3.And(s.ghost['prev_out'] >= 0, z3.Function('input_queue_type', z3.IntSort(), z3.StringSort())(cur) == z3.StringVal('process')),
+                                         self.qkind(s.ghost['prev_out']) == z3.StringVal('process')))
             return base
 
         def cleanup(s, ex):
@@ -427,6 +444,10 @@ class CompoundStart(Unit):
                 th = [t for t in ex.objs.values() if isinstance(t, ThreadObj)]
                 ex.oblige(s, 'exit(started): every member servlet was started, none was stopped, helper threads (if any) are started, and the servlet is marked started',
                           z3.And(s.ghost['nstarted'] == self.nn, s.ghost['nstopped'] == 0, self.me.get(s, '_started'), *[t.get(s, 'started') for t in th]))
+                if self.wiring in ('ensemble', 'switch'):
+                    want = [('_qins', self.nn)] + ([('_qouts', self.nn)] if self.wiring == 'ensemble' else [])
+                    ex.oblige(s, 'exit(started): the per-member queue lists the forwarding / collecting threads read hold exactly one queue per member -- whatever an earlier entry left in them was discarded',
+                              z3.And(*[z3.Length(self.me.get(s, f)) == n for f, n in want]))
             else:
                 ex.oblige(s, 'exit(a member failed to start): that member\'s error is raised; nothing is left running: every member started before it was stopped, no helper thread was started; the servlet is not marked started',
                           z3.And(p == self.init_error, s.ghost['failed_at'] == s.ghost['nstarted'], s.ghost['nstopped'] == s.ghost['nstarted'], s.ghost['nthreads'] == 0, z3.Not(self.me.get(s, '_started'))))
